@@ -65,6 +65,8 @@ pub fn miner_policy(min_power: u64) -> Policy {
     p.valid_prove_commit_ni_proof_type.insert(RegisteredSealProof::StackedDRG2KiBV1P2_Feat_NiPoRep);
     p.valid_prove_commit_ni_proof_type.insert(RegisteredSealProof::StackedDRG32GiBV1P2_Feat_NiPoRep);
     p.minimum_consensus_power = BigInt::from(min_power);
+    // verified pieces must fit the 2 KiB test sectors
+    p.minimum_verified_allocation_size = BigInt::from(256);
     p
 }
 
